@@ -1430,4 +1430,208 @@ Section Main.
     destruct (Hdn j (fst p) sch Hn) as [_ HC]. rewrite Hs.
     replace (1 + N.of_nat j) with (N.of_nat j + 1) by lia. apply HC; assumption.
   Qed.
+
+  (* ---------------------------------------------------------------- totality *)
+  Definition Tot (s : schema) : Prop :=
+    frag cls keys s = true -> forall nm s0, name_opt nm <> None -> cvf s nm s0 <> None.
+
+  Lemma type_name_some nm : name_opt nm <> None -> exists n, type_name cls nm = Some n.
+  Proof.
+    unfold type_name. destruct (name_opt nm) as [x|]; [|congruence]. intros _. eexists. reflexivity.
+  Qed.
+
+  Lemma conv_prop_name base req k s' s0 p s1 (cv : schema -> name -> st -> option (details * st)) :
+    conv_prop cls cv base req k s' s0 = Some (p, s1) ->
+    p_name p = fst (Sanitize.recase cls k Sanitize.Snake).
+  Proof.
+    unfold conv_prop. destruct (cv s' _ s0) as [[te sa]|]; [|discriminate].
+    destruct (assign te sa) as [t sb].
+    destruct (Sanitize.recase cls k Sanitize.Snake) as [ident rn].
+    destruct (mem_ustr k req); [intro H; injection H as <- _; reflexivity|].
+    destruct (has_intrinsic_default sb t); [intro H; injection H as <- _; reflexivity|].
+    destruct (assign (DOption t) sb). intro H. injection H as <- _. reflexivity.
+  Qed.
+
+  Lemma conv_props_names base req (cv : schema -> name -> st -> option (details * st)) :
+    forall props s0 ps s1,
+    conv_props cls cv base req props s0 = Some (ps, s1) -> map p_name ps = field_idents cls props.
+  Proof.
+    induction props as [|[k s'] props IH]; intros s0 ps s1 H; cbn [conv_props] in H.
+    - injection H as <- _. reflexivity.
+    - destruct (conv_prop cls cv base req k s' s0) as [[p sa]|] eqn:Hp; [|discriminate].
+      destruct (conv_props cls cv base req props sa) as [[l sb]|] eqn:Hr; [|discriminate].
+      injection H as <- _. cbn [map field_idents fst]. f_equal.
+      + exact (conv_prop_name _ _ _ _ _ _ _ _ Hp).
+      + exact (IH _ _ _ Hr).
+  Qed.
+
+  Lemma conv_prop_total base req k s' s0 :
+    Tot s' -> frag cls keys s' = true -> conv_prop cls cvf base req k s' s0 <> None.
+  Proof.
+    intros HT Hf. unfold conv_prop.
+    destruct (cvf s' (prop_type_name cls base k) s0) as [[te sa]|] eqn:Hc.
+    - destruct (assign te sa) as [t sb].
+      destruct (Sanitize.recase cls k Sanitize.Snake) as [ident rn].
+      destruct (mem_ustr k req); [discriminate|].
+      destruct (has_intrinsic_default sb t); [discriminate|].
+      destruct (assign (DOption t) sb). discriminate.
+    - exfalso. apply (HT Hf (prop_type_name cls base k) s0); [discriminate|exact Hc].
+  Qed.
+
+  Lemma conv_props_total base req : forall props,
+    Forall (fun kv => Tot (snd kv)) props ->
+    forallb (fun kv => frag cls keys (snd kv)) props = true ->
+    forall s0, conv_props cls cvf base req props s0 <> None.
+  Proof.
+    induction props as [|[k s'] props IH]; intros HT Hf s0; cbn [conv_props]; [discriminate|].
+    inversion HT as [|? ? HT1 HT2]; subst.
+    cbn [forallb snd] in Hf. apply andb_true_iff in Hf. destruct Hf as [Hf1 Hf2].
+    destruct (conv_prop cls cvf base req k s' s0) as [[p sa]|] eqn:Hp.
+    - destruct (conv_props cls cvf base req props sa) as [[l sb]|] eqn:Hr; [discriminate|].
+      exfalso. exact (IH HT2 Hf2 sa Hr).
+    - exfalso. exact (conv_prop_total base req k s' s0 HT1 Hf1 Hp).
+  Qed.
+
+  Lemma conv_kind_total items props req ap k nm s0 :
+    frag_kind k items props req ap = true ->
+    Forall Tot items -> Forall (fun kv => Tot (snd kv)) props -> OForall Tot ap ->
+    (match k with KVec => exists it, items = [it] | _ => True end) ->
+    name_opt nm <> None ->
+    conv_kind cls (ref_id D) cvf k nm items props req ap s0 <> None.
+  Proof.
+    intros Hfk HTi HTp HTa Hshape Hnm.
+    destruct (type_name_some nm Hnm) as (n & Hn).
+    destruct k as [| | | |r|raws|deny| | | |r|]; cbn [conv_kind]; try discriminate.
+    - (* KEnum *)
+      rewrite Hn. unfold mk_enum. cbn [frag_kind] in Hfk.
+      destruct (Sanitize.variant_idents cls raws); try discriminate Hfk. discriminate.
+    - (* KStruct *)
+      rewrite Hn. cbn [frag_kind] in Hfk. apply andb_true_iff in Hfk. destruct Hfk as [Hfk Hfp].
+      apply andb_true_iff in Hfk. destruct Hfk as [_ Hun].
+      destruct (conv_props cls cvf n req props s0) as [[ps sa]|] eqn:Hcp;
+        [|exfalso; exact (conv_props_total n req props HTp Hfp s0 Hcp)].
+      assert (Hu : Sanitize.unique (map p_name (sort_props ps)) = true).
+      { apply unique_true_iff. apply unique_true_iff in Hun.
+        eapply Permutation_NoDup; [apply Permutation_sym, Permutation_map, sort_props_perm|].
+        rewrite (conv_props_names _ _ _ _ _ _ _ Hcp). exact Hun. }
+      rewrite Hu. discriminate.
+    - (* KMap *)
+      destruct (assign DString s0) as [kid sk].
+      destruct ap as [vs|].
+      + assert (Hv : name_opt (value_name nm) <> None).
+        { unfold value_name. destruct (name_opt nm); [discriminate|congruence]. }
+        destruct (cvf vs (value_name nm) sk) as [[te sb]|] eqn:Hc.
+        * destruct (assign te sb). discriminate.
+        * exfalso. cbn [frag_kind] in Hfk. cbn [OForall] in HTa.
+          destruct vs as [[|]|]; [discriminate Hc|discriminate Hfk|].
+          exact (HTa Hfk _ _ Hv Hc).
+      + destruct (assign DJsonValue (set_json sk)). discriminate.
+    - (* KVec *)
+      destruct Hshape as (it & ->). cbn [frag_kind forallb] in Hfk. rewrite andb_true_r in Hfk.
+      pose proof (Forall_inv HTi) as HT1.
+      assert (Hv : name_opt (item_name cls nm) <> None) by (unfold item_name; rewrite Hn; discriminate).
+      destruct (cvf it (item_name cls nm) s0) as [[te sb]|] eqn:Hc.
+      + destruct (assign te sb). discriminate.
+      + exfalso. exact (HT1 Hfk _ _ Hv Hc).
+    - (* KVecAny *)
+      destruct (assign DJsonValue (set_json s0)). discriminate.
+    - (* KRef *)
+      cbn [frag_kind] in Hfk. destruct (ref_id_keys r Hfk) as (i & ->). discriminate.
+  Qed.
+
+  Lemma conv_total : forall s, Tot s.
+  Proof.
+    apply schema_ind'.
+    - intros b Hf. discriminate Hf.
+    - intros ty fmt enum cst nv sv ik items ai mni mxi uq props req ap mnp mxp allo anyo oneo no ref dflt title
+             IHitems _ IHprops IHap _ _ _ _.
+      intros Hf nm s0 Hnm.
+      destruct (frag_obj_inv _ _ _ _ _ _ _ _ _ _ _ _ _ _ _ _ _ _ _ _ _ _ _ _ Hf)
+        as (nl & k & Hcl & _).
+      pose proof (classify_cases _ _ _ _ _ _ _ _ _ _ _ _ _ _ _ _ _ _ _ _ _ _ _ _ _ _ Hcl) as Hcases.
+      cbn [frag] in Hf. rewrite Hcl in Hf. change (frag_kind k items props req ap = true) in Hf.
+      cbn [conv]. rewrite Hcl.
+      assert (Hshape : match k with KVec => exists it, items = [it] | _ => True end).
+      { destruct k; try exact I.
+        destruct Hcases as [(l & tt & _ & _ & _ & Hk)|(_ & _ & [(r & _ & Hk)|(_ & Hk)])]; try discriminate Hk.
+        pose proof (kind_of_type_inv _ _ _ _ _ _ _ _ _ Hk) as Hi. cbn in Hi. exact (proj2 (proj2 Hi)). }
+      assert (Hin : name_opt (inner_name nm) <> None).
+      { destruct nm; cbn [inner_name name_opt]; try discriminate. exact Hnm. }
+      destruct nl; cbn [conv_node].
+      + destruct (conv_kind cls (ref_id D) cvf k (inner_name nm) items props req ap s0) as [[te sa]|] eqn:Hc.
+        * destruct (assign te sa). discriminate.
+        * exfalso. exact (conv_kind_total items props req ap k (inner_name nm) s0 Hf IHitems IHprops IHap Hshape Hin Hc).
+      + exact (conv_kind_total items props req ap k nm s0 Hf IHitems IHprops IHap Hshape Hnm).
+  Qed.
+
+  Lemma conv_def_total d sch t s0 :
+    frag cls keys sch = true -> conv_def cls (ref_id D) d sch t s0 <> None.
+  Proof.
+    intro Hf. unfold conv_def.
+    destruct (cvf sch (NRequired d) s0) as [[te s1]|] eqn:Hc.
+    - destruct te; try (destruct (assign _ s1)); discriminate.
+    - exfalso. apply (conv_total sch Hf (NRequired d) s0); [discriminate|exact Hc].
+  Qed.
+
+  Lemma conv_defs_total : forall ds t s0,
+    forallb (fun kv => frag cls keys (snd kv)) ds = true -> conv_defs cls (ref_id D) ds t s0 <> None.
+  Proof.
+    induction ds as [|[d sch] ds IH]; intros t s0 Hf; cbn [conv_defs]; [discriminate|].
+    cbn [forallb snd] in Hf. apply andb_true_iff in Hf. destruct Hf as [Hf1 Hf2].
+    destruct (conv_def cls (ref_id D) d sch t s0) as [s1|] eqn:Hc.
+    - apply IH. exact Hf2.
+    - exfalso. exact (conv_def_total d sch t s0 Hf1 Hc).
+  Qed.
+
+  Lemma NoDup_flat_map_pick {X Y} (f : X -> Y) (g : X -> list Y) (l : list X) :
+    (forall x, In (f x) (g x)) -> NoDup (flat_map g l) -> NoDup (map f l).
+  Proof.
+    intro Hfg. induction l as [|x l IH]; intro H; [constructor|].
+    cbn [flat_map map] in *. constructor.
+    - intro Hin. apply in_map_iff in Hin. destruct Hin as (y & Hy & Hyl).
+      apply (NoDup_app_disj _ _ (f x) H (Hfg x)). apply in_flat_map. exists y. split; [exact Hyl|].
+      rewrite <- Hy. apply Hfg.
+    - apply IH. exact (NoDup_app_r _ _ H).
+  Qed.
+
+  Theorem convert_total : in_frag cls D = true -> convert_doc cls D <> None.
+  Proof.
+    intro Hin. unfold in_frag in Hin.
+    apply andb_true_iff in Hin. destruct Hin as [Hin _].
+    apply andb_true_iff in Hin. destruct Hin as [Hin Hun].
+    apply andb_true_iff in Hin. destruct Hin as [_ Hfr].
+    unfold convert_doc.
+    assert (Hu : Sanitize.unique (def_names cls D) = true).
+    { apply unique_true_iff. apply unique_true_iff in Hun. unfold def_names, all_names in *.
+      apply (NoDup_flat_map_pick (fun kv => san (fst kv)) (def_all_names cls) D); [|exact Hun].
+      intros [d sch]. apply (proj1 (def_all_names_spec d sch)). left. reflexivity. }
+    rewrite Hu. cbn [negb].
+    destruct (conv_defs cls (ref_id D) D 1 _) as [sf|] eqn:Hc; [discriminate|].
+    exfalso. exact (conv_defs_total D 1 _ Hfr Hc).
+  Qed.
 End Main.
+
+(* ------------------------------------------------------------------ corollaries *)
+Theorem fragment_sound cls re fmt_ok native D T :
+  (forall f n s, In (f, n) format_native_table -> fmt_ok f s = true -> native n s = true) ->
+  in_frag cls D = true -> convert_doc cls D = Some T ->
+  forall r t, In (r, t) (pairs_of D) ->
+  forall v, in_dom v = true ->
+  Valid re fmt_ok D (SRef r) v ->
+  exists f, de re native T f t v <> None.
+Proof.
+  intros Hfmt Hin Hc. apply (covers_sound re fmt_ok native D T (pairs_of D) Hfmt).
+  apply convert_covers with (cls := cls); assumption.
+Qed.
+
+(* every definition of the document has its pair *)
+Lemma pairs_from_complete : forall (D : defs) i0 r s, In (r, s) D -> exists t, In (r, t) (pairs_from D i0).
+Proof.
+  induction D as [|[k x] D IH]; intros i0 r s H; [destruct H|]. cbn [pairs_from].
+  destruct H as [H|H].
+  - injection H as -> _. exists i0. left. reflexivity.
+  - destruct (IH (i0 + 1) r s H) as (t & Ht). exists t. right. exact Ht.
+Qed.
+
+Lemma pairs_complete (D : defs) r s : In (r, s) D -> exists t, In (r, t) (pairs_of D).
+Proof. apply pairs_from_complete. Qed.
